@@ -50,6 +50,8 @@ func main() {
 		cmdKvs(fs, os.Args[2:])
 	case "simple":
 		cmdSimple(fs, os.Args[2:])
+	case "conc":
+		cmdConc(fs, os.Args[2:])
 	default:
 		fmt.Fprintf(os.Stderr, "harness: unknown subcommand %q\n", sub)
 		os.Exit(2)
